@@ -4,7 +4,7 @@ import hashlib, json, os, re, resource, select, subprocess, sys, threading, time
 
 VERIF = os.path.dirname(os.path.dirname(os.path.abspath(__file__)))
 REPO = os.environ.get('VERIF_REPO', '/repo')
-LEAN = os.path.join(VERIF, 'lean')
+LEAN = os.environ.get('VERIF_LEAN', os.path.join(VERIF, 'lean'))     # VERIF_LEAN: private copy for self-tests against scratch worktrees
 # self-test overrides (seeded-mutant runs against a scratch worktree without touching /repo or the committed evidence):
 #   VERIF_REPO = source tree, VERIF_HARNESS = a copy of harness/ whose path dependencies point at that tree,
 #   VERIF_OUT = where evidence/ and replays/ are written, VERIF_WORK = scratch directory
@@ -85,18 +85,18 @@ GEN_DEPENDS = {
 
 # extra property modules per property: (module under Garnish.Props, namespace to list, regex on the short name or None)
 AUDIT_EXTRA = {
-    'C01': [('C01Compile', 'Garnish.Props.C01', None), ('C01Build', 'Garnish.Props.C01Build', None)],
+    'C01': [('C01Compile', 'Garnish.Props.C01', None), ('C01Build', 'Garnish.Props.C01Build', None), ('C01Source', 'Garnish.Props.C01Source', None), ('C02Numbered', 'Garnish.Props.C02Numbered', r'^C01_')],
     'C06': [('C06Static', 'Garnish.Props.C06', None)],
     'C10': [('C01Compile', 'Garnish.Props.C01', r'^(C10_|C01_compile_correct$)'), ('C10Compile', 'Garnish.Props.C10', None)],
     'C17': [('C01Compile', 'Garnish.Props.C01', r'^(C17_|C01_compile_correct$|compile_env$)')],
     'C11': [('C11Refine', 'Garnish.Props.C11Refine', None)],
     'C18': [('C18Lex', 'Garnish.Props.C18Lex', None), ('C18Parse', 'Garnish.Props.C18Parse', None), ('C02Parse', 'Garnish.Props.C02Parse', r'^C18_')],
-    'C02': [('C02Parse', 'Garnish.Props.C02Parse', r'^C02_')],
+    'C02': [('C02Parse', 'Garnish.Props.C02Parse', r'^C02_'), ('C02Numbered', 'Garnish.Props.C02Numbered', r'^C02_'), ('C02Frag10', 'Garnish.Props.C02Frag10', None)],
     'C04': [('C02Parse', 'Garnish.Props.C02Parse', r'^C04_'), ('C04Build', 'Garnish.Props.C04Build', None)],
     'C03': [('C03Lex', 'Garnish.Props.C03Lex', None)],
     'C20': [('C20Compile', 'Garnish.Props.C20', None)],
     'C08': [('C08Casts', 'Garnish.Props.C08Casts', r'^cast_')],
-    'C07': [('C08Casts', 'Garnish.Props.C08Casts', r'^C07_')],
+    'C07': [('C08Casts', 'Garnish.Props.C08Casts', r'^C07_'), ('C07Access', 'Garnish.Props.C07Access', None)],
 }
 
 
